@@ -1011,6 +1011,12 @@ def run(repo, rep):
               'command before data; pc_id, control byte and fragment of the same iteration; one PDV per PDU', '; '.join(sorted(set(p5))))
 
     # ---------------------------------------------------------------- S10: encoding is repeatable
+    from .c10 import limit_setter_problems
+    sp_, sn_ = limit_setter_problems(repo)
+    rep.rule('C06.S11', 'the width the fragments are cut to is the limit that was set (same analysis as C10.X9): a setter of '
+             '``max_pdu_length`` stores 0 and every value from 7 on unchanged', 1)
+    rep.check(not sp_, 'C06.S11', 'asceprovider:Association.max_pdu_length:setter', repo.module('asceprovider').relpath,
+              '%d setter(s) of max_pdu_length, each stores the legal values as given' % sn_, '; '.join(sp_))
     rep.rule('C06.S10', 'encode() leaves the message as it found it: it (and the helpers it calls) binds no attribute of self, so a message '
              'with an in-memory data set fragments to the same PDVs however often it is encoded (closing a file data set at the end is '
              'not a change of the message)', 1)
